@@ -31,3 +31,38 @@ package publicationpb
 //@   ensures [size] err == nil ==> 1 <= pageSize && pageSize <= 1000 && (old(request.PageSize) == 0 ==> pageSize == 50) && upperBound - nextIndex <= pageSize && (upperBound == len(all) || upperBound - nextIndex == pageSize)
 //@   ensures [last-page] err == nil && nextIndex + pageSize > len(all) ==> resp.NextPageToken == ""
 //@   replay PublicationList(request.PageSize)
+//@
+//@ property C20
+//@ // ---- acknowledge protocol: a receipt is accepted only for the stored version and only once ----
+//@ pure func pubOf(m) = cast(m, *traits.Publication)
+//@ pure func isPub(m) = istype(m, *traits.Publication) && cast(m, *traits.Publication) != nil
+//@ pure func receiptOf(p) = p.Audience == nil ? 0 : p.Audience.Receipt
+//@ pure func acked(p) = receiptOf(p) == traits.Publication_Audience_ACCEPTED || receiptOf(p) == traits.Publication_Audience_REJECTED
+//@
+//@ // the expected-value check of AcknowledgePublication, run on the stored publication
+//@ func (*ModelServer).AcknowledgePublication$1(msg) (err)
+//@   requires isPub(msg) && request != nil
+//@   ensures [version] pubOf(msg).Version != request.Version ==> err != nil && acknowledgedPub == old(acknowledgedPub)
+//@   ensures [once] pubOf(msg).Version == request.Version && acked(pubOf(msg)) ==> err == alreadyAcknowledged && acknowledgedPub == pubOf(msg)
+//@   ensures [fresh] pubOf(msg).Version == request.Version && !acked(pubOf(msg)) ==> err == nil
+//@   ensures [unrecorded] !(pubOf(msg).Version == request.Version && acked(pubOf(msg))) ==> acknowledgedPub == old(acknowledgedPub)
+//@
+//@ // computed properties: resetting the receipt clears all three receipt fields of the audience
+//@ func (*Model).withComputedProperties$1(o, n)
+//@   requires isPub(n) && !args.newPublishTime && !args.newVersion      // (publish time and version call md5/fmt/clock code the verifier havocs)
+//@   ensures [reset] args.resetReceipt && pubOf(n).Audience != nil ==> pubOf(n).Audience.ReceiptTime == nil && pubOf(n).Audience.Receipt == traits.Publication_Audience_NO_SIGNAL && pubOf(n).Audience.ReceiptRejectedReason == ""
+//@   ensures [kept] !args.resetReceipt && pubOf(n).Audience != nil ==> pubOf(n).Audience.Receipt == old(pubOf(n).Audience.Receipt) && pubOf(n).Audience.ReceiptTime == old(pubOf(n).Audience.ReceiptTime)
+//@   ensures [content] pubOf(n).Version == old(pubOf(n).Version) && pubOf(n).PublishTime == old(pubOf(n).PublishTime) && pubOf(n).Audience == old(pubOf(n).Audience)
+//@
+//@ // Collection.Update behind UpdatePublication is not under contract here (C01/C08); it runs the expected-value check, which
+//@ // records an already acknowledged publication in acknowledgedPub.  Nothing is assumed about its results.
+//@ func (*Model).UpdatePublication(id, publication, opts) (res, err)
+//@   trusted
+//@   modifies msgs, H$cell$*traits.Publication      // any message field, and the captured acknowledgedPub variable
+//@
+//@ func (*ModelServer).AcknowledgePublication(ctx, request) (res, err)
+//@   requires recv != nil && recv.model != nil && request != nil
+//@   ensures [required] old(request.Id) == "" || old(request.Version) == "" ==> err != nil && res == nil
+//@   // a publication that was found already acknowledged is returned when the caller allows that
+//@   ensures [allow-acknowledged] old(request.Id) != "" && old(request.Version) != "" && acknowledgedPub != nil && request.AllowAcknowledged ==> err == nil && res == acknowledgedPub
+//@   replay PublicationAckTwice()
